@@ -19,7 +19,12 @@
   * `cos`, `sin`, the float product `x·(π/180)` and `np.deg2rad` are parameters (`Trig`);
     the harness passes numpy's values.  The (de)serialisers are parameters of
     `serialize`/`deserialize`.
-  * Domain of the correspondence: keys are strings; a `phase` is a JSON number (a `bool`,
+  * Keys of a Python dictionary may be any hashable scalar (YAML mappings: 1, 1.5, true, null).  The
+    harness encodes a non-string key injectively into a string with a control-character tag
+    (`"\u0001n:<p/q>"` for numbers and booleans — equal keys get equal encodings — and `"\u0001none"`);
+    this is faithful because the code looks keys up by string literals and compares key *sets* with sets
+    of strings only.  `keyClass` recovers the type class of a key, which matters to `sorted(keys)` only.
+  * Domain of the correspondence: keys as above; a `phase` is a JSON number (a `bool`,
     `complex` or list there goes through numpy broadcasting rules that are not modelled —
     the model answers `FileFormatError`/`TypeError`, the harness never generates it).
 -/
@@ -480,12 +485,24 @@ def absFactor : J → Except Err GQ
   | .bool b => .ok (if b then 1 else 0)
   | _ => .error .typeError
 
+/-- type class of a dictionary key under the harness' encoding: 0 string, 1 number / boolean, 2 `None` -/
+def keyClass (k : String) : Nat :=
+  if k.startsWith "\u0001n:" then 1 else if k = "\u0001none" then 2 else 0
+
+/-- keys of different type classes: `sorted(list(value.keys()))` raises `TypeError` -/
+def mixedKeys : Obj → Bool
+  | [] => false
+  | (k, _) :: r => r.any (fun p => keyClass p.1 != keyClass k)
+
 /-- `_complex_from_notation(value)` (dump_load.py:21-34) for a dictionary `value`; for any
-other tree `none` (the callers test `isinstance(value, dict)` first) -/
+other tree `none` (the callers test `isinstance(value, dict)` first).  The notation is recognised
+by the key set; when the generated `notationBySortedKeys` says the code sorts the keys instead, a
+mapping with keys of different types raises `TypeError` before anything is compared. -/
 def undictifyValue (T : Trig) (v : J) : Except Err (Option J) :=
   match v with
   | .obj vo =>
-    if Obj.keysAre vo "real" "imag" then
+    if notationBySortedKeys && mixedKeys vo then .error .typeError
+    else if Obj.keysAre vo "real" "imag" then
       match pyComplex ((Obj.find vo "real").getD .null) ((Obj.find vo "imag").getD .null) with
       | some c => .ok (some (.cx c))
       | none => .error .typeError
